@@ -1,6 +1,233 @@
-//! C14 — not built yet.
-use crate::ev::Tier;
-pub fn main(_tier: Tier, _replay: Option<serde_json::Value>) -> i32 {
-    eprintln!("C14: check not built yet");
-    2
+//! C14 — fixed-base multiplication returns [s]G for canonical s only.
+
+use dusk_jubjub::{JubJubExtended, GENERATOR_EXTENDED, GENERATOR_NUMS_EXTENDED};
+use serde_json::json;
+
+use crate::e2::Gadget;
+use crate::ev::{Run, Tier};
+use crate::fe::*;
+use crate::gadget::*;
+use crate::m5::{self, Pt};
+
+type Digits = [i8; 256];
+
+/// Signed integer value of a digit vector (digit i weighs 2^i), as
+/// (negative?, magnitude).
+fn digits_value(d: &Digits) -> (bool, U320) {
+    let mut pos = U320::zero();
+    let mut neg = U320::zero();
+    for i in 0..256 {
+        match d[i] {
+            1 => pos = pos.add(&U320::pow2(i)),
+            -1 => neg = neg.add(&U320::pow2(i)),
+            _ => {}
+        }
+    }
+    if pos.lt(&neg) {
+        (true, neg.sub(&pos))
+    } else {
+        (false, pos.sub(&neg))
+    }
+}
+
+/// Width-2 NAF of a non-negative integer below 2^255 (own code).
+fn naf(v: &U320) -> Digits {
+    let mut d = [0i8; 256];
+    let mut n = *v;
+    let mut i = 0;
+    while n != U320::zero() && i < 256 {
+        if n.bit(0) == 1 {
+            // n mod 4
+            let m = (n.bit(0) + 2 * n.bit(1)) as i8;
+            if m == 1 {
+                d[i] = 1;
+                n = n.sub(&U320::from_u64(1));
+            } else {
+                d[i] = -1;
+                n = n.add(&U320::from_u64(1));
+            }
+        }
+        n = n.shr(1);
+        i += 1;
+    }
+    d
+}
+
+fn binary(v: &U320) -> Digits {
+    let mut d = [0i8; 256];
+    for i in 0..256 {
+        d[i] = v.bit(i) as i8;
+    }
+    d
+}
+
+fn generators(tier: Tier) -> Vec<(String, JubJubExtended)> {
+    let rho = dusk_jubjub::JubJubScalar::from(Rho::new(seed(), 1414).next_u64());
+    let mut v = vec![("G".to_string(), GENERATOR_EXTENDED), ("Gnums".to_string(), GENERATOR_NUMS_EXTENDED)];
+    if tier == Tier::Thorough {
+        v.push(("rhoG".to_string(), GENERATOR_EXTENDED * rho));
+    }
+    v
+}
+
+fn scalars() -> Vec<(String, Fe)> {
+    let rj = r_jubjub();
+    let mut rho = Rho::new(seed(), 1415);
+    let canon = {
+        // a canonical JubJub scalar: rho mod 2^251 < r_J
+        m5::low_bits(&rho.next_fe(), 251)
+    };
+    vec![
+        ("0".into(), zero()),
+        ("1".into(), one()),
+        ("2".into(), fe(2)),
+        ("rJ-1".into(), rj - one()),
+        ("rJ".into(), rj),
+        ("rJ+1".into(), rj + one()),
+        ("2^252-1".into(), pow2(252) - one()),
+        ("2^252".into(), pow2(252)),
+        ("-1".into(), neg1()),
+        ("rho".into(), canon),
+    ]
+}
+
+fn mul_native(g: &JubJubExtended, k: &U320) -> Pt {
+    Pt::from_jubjub(*g).mul(k).unwrap()
+}
+
+fn seam_case(gn: &str, g: JubJubExtended, sn: &str, s: Fe, dn: &str, d: Digits, tier: Tier, explore: bool) -> GCase {
+    let gadget = Gadget::new(&format!("fixed_base/{}/s={}/digits={}", gn, sn, dn), vec![s], move |c, ins| {
+        let p = c.verif_fixed_base_signed_digits(ins[0], g, &d)?;
+        Ok(vec![*p.x(), *p.y()])
+    });
+    // oracle: canonical scalar, three leading zero digits, digits encode s as an integer
+    let canonical = U320::from_fe(&s).lt(&U320::from_fe(&r_jubjub()));
+    let (negv, mag) = digits_value(&d);
+    let leading_zero = d[253] == 0 && d[254] == 0 && d[255] == 0;
+    let encodes = !negv && mag == U320::from_fe(&s);
+    let e = if canonical && leading_zero && encodes {
+        let p = mul_native(&g, &U320::from_fe(&s));
+        Expect::Sat(vec![p.x, p.y])
+    } else {
+        // the digit vector is the prover's choice: other assignments of the
+        // gadget's witnesses (other digit vectors) may satisfy it iff s is canonical
+        if canonical {
+            Expect::UnsatHonest
+        } else {
+            Expect::Unsat
+        }
+    };
+    let class = format!("fixed_base/{}", if canonical { "canonical-scalar" } else { "non-canonical-scalar" });
+    let mut c = GCase::new(gadget, e, &class);
+    c.dev_stride = if explore { tier.pick(13, 1) } else { 0 };
+    c.confirm = explore;
+    c
+}
+
+pub fn cases(tier: Tier) -> Vec<GCase> {
+    let mut out = vec![];
+    let q = U320::modulus();
+    let rj = U320::from_fe(&r_jubjub());
+    for (gn, g) in generators(tier) {
+        for (sn, s) in scalars() {
+            let si = U320::from_fe(&s);
+            // public entry point
+            let gadget = Gadget::new(&format!("mul_generator/{}/s={}", gn, sn), vec![s], move |c, ins| {
+                let p = c.component_mul_generator(ins[0], g)?;
+                Ok(vec![*p.x(), *p.y()])
+            });
+            let canonical = si.lt(&rj);
+            let e = if canonical {
+                let p = mul_native(&g, &si);
+                Expect::Sat(vec![p.x, p.y])
+            } else {
+                Expect::Unsat
+            };
+            let mut c = GCase::new(gadget, e, "mul_generator");
+            c.dev_stride = tier.pick(13, 1);
+            out.push(c);
+
+            // prover-chosen digit vectors through the seam
+            let honest = naf(&si.low(255));
+            let mut menu: Vec<(String, Digits, bool)> = vec![("naf(s)".into(), honest, true), ("binary(s)".into(), binary(&si.low(255)), true)];
+            // encodings of s + q, s + r_J, s - r_J (when non-negative), s + 2^253
+            let plus_q = si.add(&q);
+            if plus_q.lt(&U320::pow2(256)) {
+                menu.push(("binary(s+q)".into(), binary(&plus_q), true));
+                if plus_q.lt(&U320::pow2(255)) {
+                    menu.push(("naf(s+q)".into(), naf(&plus_q), false));
+                }
+            }
+            let plus_r = si.add(&rj);
+            menu.push(("naf(s+rJ)".into(), naf(&plus_r), false));
+            if !si.lt(&rj) {
+                menu.push(("naf(s-rJ)".into(), naf(&si.sub(&rj)), true));
+                menu.push(("binary(s-rJ)".into(), binary(&si.sub(&rj)), false));
+            }
+            if si.lt(&U320::pow2(253)) {
+                menu.push(("naf(s)+2^253".into(), { let mut d = honest; if d[253] == 0 { d[253] = 1; } d }, false));
+                menu.push(("naf(s)+2^255-2^254-2^254".into(), { let mut d = honest; d[255] = 1; d[254] = -1; d }, false));
+            }
+            // NAF rewrites (-1, 1) <-> (1, 0) and (1, -1) <-> (-1, 0)+carry at every position: same integer
+            let rewrite_positions: Vec<usize> = tier.pick((0..252).step_by(17).collect(), (0..252).collect());
+            for i in rewrite_positions {
+                let mut d = honest;
+                if d[i] == 0 && d[i + 1] == 1 {
+                    // 2^(i+1) = 2^(i+2) - 2^(i+1) is not a single rewrite; use 2^(i+1) = 2*2^i: (1 at i) twice is not allowed; skip
+                    continue;
+                }
+                if d[i] == -1 && d[i + 1] == 1 {
+                    d[i] = 1;
+                    d[i + 1] = 0;
+                    menu.push((format!("rewrite@{}", i), d, false));
+                } else if d[i] == 1 && d[i + 1] == 0 && i + 1 < 253 {
+                    d[i] = -1;
+                    d[i + 1] = 1;
+                    menu.push((format!("rewrite@{}", i), d, false));
+                }
+            }
+            // every single-digit deviation of the honest vector
+            let positions: Vec<usize> = tier.pick((0..256).filter(|i| i % 9 == 0 || *i >= 250).collect(), (0..256).collect());
+            for i in positions {
+                for v in [-1i8, 0, 1] {
+                    if honest[i] != v {
+                        let mut d = honest;
+                        d[i] = v;
+                        menu.push((format!("digit{}={}", i, v), d, false));
+                    }
+                }
+            }
+            for (dn, d, explore) in menu {
+                // explore allocations only for the principal vectors of the first generator
+                let explore = explore && (tier == Tier::Thorough || gn == "G");
+                out.push(seam_case(&gn, g, &sn, s, &dn, d, tier, explore));
+            }
+        }
+    }
+    out
+}
+
+pub fn main(tier: Tier, replay: Option<serde_json::Value>) -> i32 {
+    let mut run = Run::new("C14", tier, "model_checking");
+    run.rule = "cases = (generator, scalar witness incl. r_J-1, r_J, r_J+1, 2^252-1, non-canonical, random) x prover-chosen signed-digit vectors through the seam: honest width-2 NAF, plain binary, every single-digit deviation, same-integer rewrites, encodings of s+q, s+-r_J, s+2^253, plus bound-1 deviations of the widget's allocations (accumulators, xy_alpha, canonicity range checks); decided by M1; oracle: satisfiable iff scalar < r_J and the digits (three leading zeros) encode it as an integer; every satisfying assignment returns [s]G (own affine arithmetic)".into();
+    let cs = cases(tier);
+    let cache = ConfirmCache::new(crate::setup::pp(1 << 10));
+    if let Some(r) = replay {
+        return crate::gadget::replay(run, &cs, &cache, &r);
+    }
+    if tier == Tier::Quick {
+        run.exhaustive = false;
+        run.capped = Some("quick: digit positions i%9==0 or i>=250, rewrite positions every 17th, allocation deviations every 13th ordinal".into());
+    }
+    let names: Vec<String> = cs.iter().map(|c| c.g.name.clone()).collect();
+    let reps = crate::par::par_map(&cs, |c| run_case(c, &cache));
+    absorb(&mut run, reps, &names);
+    run.gate("honest satisfiable cases", run.count("honest:sat") > 0);
+    run.gate("unsatisfiable cases", run.count("honest:unsat") > 0);
+    run.bound("cases", json!(cs.len()));
+    run.assumptions = vec![
+        "M1 row model (bound to the prover by C05) decides satisfiability".into(),
+        "own affine twisted-Edwards arithmetic (M5) is the group-law specification".into(),
+    ];
+    run.finish()
 }
